@@ -377,17 +377,24 @@ func (p *Persister) flushNow(ctx context.Context, batch map[string]persistData, 
 	}
 
 	defer tx.Discard()
+	// setErrs remembers, per connector, the error of a storeFunc that failed
+	// inside this transaction. The transaction is still committed (the other
+	// connectors' writes are independent), but a connector whose own write did
+	// not make it into the transaction must not be told it is durable: its
+	// callback receives its own error (see below). Before this, the loop
+	// variable shadowed err, the failure was only logged and the callback got
+	// nil — connector.Source then acked the plugin for a position the store
+	// does not hold (invariant 1).
+	setErrs := make(map[string]error)
 	for id, data := range batch {
-		err := data.storeFunc(ctx)
-		if err != nil {
-			p.logger.Err(ctx, err).
+		if setErr := data.storeFunc(ctx); setErr != nil {
+			p.logger.Err(ctx, setErr).
 				Str(log.ConnectorIDField, id).
 				Msg("error while saving connector")
+			setErrs[id] = setErr
 		}
 	}
-	if err == nil {
-		err = tx.Commit()
-	}
+	err = tx.Commit()
 	// Track every callback this flush spawns so WaitPendingWrites can observe
 	// not just "the write landed" but "every side effect the write's callback
 	// performs has also finished" — see flushState.callbacksDone. The
@@ -397,12 +404,18 @@ func (p *Persister) flushNow(ctx context.Context, batch map[string]persistData, 
 	// actually observe.
 	var cbWg sync.WaitGroup
 	cbWg.Add(len(batch))
-	for _, data := range batch {
+	for id, data := range batch {
+		// a failed commit fails every connector of the batch; a failed write
+		// fails the connector it belongs to
+		cbErr := err
+		if cbErr == nil {
+			cbErr = setErrs[id]
+		}
 		// execute callbacks in go routines to make sure they can't block this function
-		go func(cb PersistCallback) {
+		go func(cb PersistCallback, cbErr error) {
 			defer cbWg.Done()
-			cb(err)
-		}(data.callback)
+			cb(cbErr)
+		}(data.callback, cbErr)
 	}
 	go func() {
 		cbWg.Wait()
